@@ -32,6 +32,13 @@ Theorem C16_dn : forall rs, dn_ok rs -> domain_of_dn (render_dn rs) = dns_domain
 Proof. exact domain_of_dn_spec. Qed.
 Print Assumptions C16_dn.
 
+(* The same for every renderer that additionally writes some bytes (any set [hx] of them: Active Directory
+   does it for line feed and carriage return) as a backslash and two hexadecimal digits, "\0A": the value of
+   an RDN may end in such an escape directly before the separating comma, and the DC that follows still counts. *)
+Theorem C16_dn_hex : forall hx rs, dn_ok_hx hx rs -> domain_of_dn (render_dn_hx hx rs) = dns_domain rs.
+Proof. exact domain_of_dn_hx_spec. Qed.
+Print Assumptions C16_dn_hex.
+
 (* Non-vacuity: concrete instances meet the hypotheses and compute. *)
 Example C16_sid_example :
   parse_sid (sid_encode 5 [21; 1004336348; 1177238915; 682003330; 512] ++ [7; 7])
@@ -42,3 +49,10 @@ Example C16_dn_example :
   let rs := [([67; 78], [97; 44; 68; 67; 61; 101]); ([68; 67], [99; 111; 114; 112]); ([68; 67], [108; 97; 110])] in
   dn_ok rs /\ domain_of_dn (render_dn rs) = [99; 111; 114; 112; 46; 108; 97; 110].
 Proof. split; [repeat constructor; intros; try discriminate|vm_compute; reflexivity]. Qed.
+
+Example C16_dn_hex_example :
+  let hx := fun c => orb (c =? 10) (c =? 13) in
+  let rs := [([67; 78], [106; 13]); ([68; 67], [99; 111; 114; 112]); ([68; 67], [108; 97; 110])] in
+  dn_ok_hx hx rs /\ render_dn_hx hx rs = [67; 78; 61; 106; 92; 48; 68; 44; 68; 67; 61; 99; 111; 114; 112; 44; 68; 67; 61; 108; 97; 110]
+  /\ domain_of_dn (render_dn_hx hx rs) = [99; 111; 114; 112; 46; 108; 97; 110].
+Proof. split; [repeat constructor; intros; try discriminate|split; vm_compute; reflexivity]. Qed.
